@@ -96,6 +96,11 @@ def rows_close(a, b, dtype, k=256):
 
 
 LARGE = [(16385, (16385,)), (16385, (5, 3277)), (65537, (65537,))]
+
+
+def H5_cheap(g, name):
+    from .util_autograd_h5 import CHEAP
+    return CHEAP[g] is None or name in CHEAP[g]
 SWITCH = [25, 26, 32, 33, 128, 129, 1024, 1025]
 
 
@@ -163,7 +168,7 @@ def run_large(ctx, only=None):
                                                              f"concatenation of the pieces [:{a_}] and [{a_}:]")
                                 break
                     # the model on a sample that contains the last item
-                    if n >= (65537 if ctx.quick else 16385) and dtype == "float64":
+                    if n >= (65537 if ctx.quick else 16385) and dtype == "float64" and not (ctx.quick and H5_cheap(g, name) and (fi + gi) % 3):
                         smp = [0, (104729 * (fi + 1)) % n, n - 1]
                         c3 = {"stream": "large", "prog": C.to_json(node), "ltypes": [list(t) for t in ltypes], "dtype": dtype,
                               "lshapes": [[3] for _ in ltypes], "bshape": [3], "root": list(C.node_type(node, ltypes)),
@@ -289,7 +294,7 @@ def run_subclasses(ctx, only=None):
                     o0, g0 = C.grads_of(P, fn, g, X, a, p)
                     XL0, aL0 = C.lie(P, g, X.clone(), a.clone())
                     t0 = fn(XL0, aL0, p.clone())
-                    for kind in ("MyParam", "MyT data", "MyT operands", "MyLie"):
+                    for kind in (("MyParam", "MyT operands", "MyLie") if ctx.quick else ("MyParam", "MyT data", "MyT operands", "MyLie")):
                         ctx.count("subclass.calls")
                         ctx.note_case(("subclass", g, dtype, name, kind), True)
                         pl = p.clone().requires_grad_(True)
@@ -407,7 +412,7 @@ def run_signs(ctx, only=None):
                     G = lambda cc: C.grads_of(P, fn, g, X, a, p, cc)[1]
                     g_c = G(c)
                     ctx.note_case(("signs", g, dtype, name), True)
-                    for s in (-1.0, 2.0, -0.5, -4.0):
+                    for s in ((-1.0, -0.5) if ctx.quick else (-1.0, 2.0, -0.5, -4.0)):
                         ctx.count("signs.calls")
                         gs = G(c * s)
                         if not all(same(x, None if y is None else y * s) for x, y in zip(gs, g_c)):
